@@ -94,10 +94,12 @@ class Mon:
                 'accepted': ['FormulaError']})
         elif expect == 'accept':
             if outcome != 'accepted':
-                ctx.violation('literal-rejected:%s' % cls, {
+                ctx.violation('%s-rejected:%s' % (
+                    'literal' if value is not None else 'valid', cls), {
                     'case': case, 'observed': 'FormulaError',
-                    'accepted': ['a formula with value %r' % value]})
-            else:
+                    'accepted': ['a formula' + (
+                        ' with value %r' % value if value is not None else '')]})
+            elif value is not None:
                 try:
                     got = xl.canon(xl.scalar(res[1].compile()()))
                 except Exception as ex3:
@@ -189,6 +191,32 @@ def gen_invalid(rng, valid):
     return 'unbalanced', '=%s' % ')('.join((a, b))
 
 
+ERRS = ('#N/A', '#REF!', '#DIV/0!', '#VALUE!', '#NUM!', '#NAME?', '#NULL!')
+# characters that a case-insensitive match folds onto ASCII letters
+FOLDS = {'s': '\u017f', 'S': '\u017f', 'k': '\u212a', 'K': '\u212a'}
+
+
+def recase(rng, valid, folds=False):
+    """The same formula with an error literal added and the case of letters
+    outside string literals changed at random (Excel reads formulas ignoring
+    the case); with folds, some letters are replaced by non-ASCII characters
+    whose case folding is that letter."""
+    text = '=%s%s%s' % (rng.choice(ERRS), rng.choice('+&=<'), valid[1:]) \
+        if rng.random() < 0.6 else valid
+    out, instr = [], False
+    for ch in text:
+        if ch == '"':
+            instr = not instr
+        elif not instr and ch.isalpha():
+            r = rng.random()
+            if folds and ch in FOLDS and r < 0.5:
+                ch = FOLDS[ch]
+            elif r < 0.5:
+                ch = ch.swapcase()
+        out.append(ch)
+    return ''.join(out)
+
+
 def mutate(rng, valid):
     toks = _tokens(valid[1:])
     if not toks:
@@ -221,13 +249,15 @@ def run(spec, ctx):
     n = spec['count']
     sp = [gf.Speller(rng), gf.Speller(rng, ws=0.3, case=0.3, extra=0.2),
           gf.Speller(rng, full=True), gf.Speller(rng, guard_signs=False)]
-    valids = []
+    valids, accepted = [], []
     for i in range(n // 6):
         t = gf.rand_tree(rng, rng.randint(1, 4), p_call=0.25, p_arr=0.1)
         s = rng.choice(sp).spell(t)
         valids.append(s)
         out = m.check(s, 'valid')
         ctx.count('valid.' + out)
+        if out == 'accepted':
+            accepted.append(s)
     for i in range(n // 6):
         k = rng.randint(1, 12)
         s = rng.choice(('=', '=', '', '{=', ' =')) + ''.join(
@@ -261,6 +291,12 @@ def run(spec, ctx):
         head = rng.choice(('1', 'x', '(', '"a"', '+'))
         m.check('%s{=%s}' % (head, v[1:]), 'invalid:leading-before-brace',
                 expect='reject')
+    # letter case: the same formulas in another case, error literals included
+    for i in range(n // 12):
+        v = rng.choice(accepted or valids)
+        o = m.check(recase(rng, v), 'recased', expect='accept' if accepted else None)
+        ctx.count('recased.' + o)
+        m.check(recase(rng, v, folds=True), 'casefold')
     lits = gen_literals(rng, n // 10)
     for z in ('0', '00', '0.0', '0E+00', '0.0E+00', '00E-00', '0e+3', '000.000',
               '1E+00', '10E-01', '100', '1000000', '1E+308', '4.9E-324'):
@@ -291,7 +327,8 @@ def finalize(agg, tier):
     for k, floor in (('parse.valid', 9000), ('parse.soup', 9000),
                      ('parse.noise', 2000), ('parse.mutant', 6000),
                      ('parse.invalid', 2500), ('parse.literal', 1500),
-                     ('valid.accepted', 2500)):
+                     ('valid.accepted', 2500), ('parse.recased', 1500),
+                     ('parse.casefold', 1500)):
         if c.get(k, 0) < floor:
             inc.append('monitor %s saw %d events (< %d)' % (k, c.get(k, 0), floor))
     need = {'unbalanced', 'missing-operand', 'adjacent-operands',
